@@ -210,6 +210,25 @@ def report(prop, tier, seed, spec, results, kani_results, wall):
             print('VIOLATION property=%s replay=%s%s' % (prop, path, '' if conc else ' no-failing-input-found'))
         return 1
     if status == 'undecided':
+        # bounded stand-in for units the verifier could not decide: only a concrete failing input on the
+        # real code is reported as a violation; otherwise the answer stays "undecided"
+        import replayer
+        for r in results:
+            if r.status != 'undecided':
+                continue
+            try:
+                conc, bound = replayer.fallback(prop, r.name)
+            except Exception as e:
+                conc, bound = None, 'fallback failed: %r' % e
+            if conc:
+                rec = dict(fn='<unit undecided>', kind='bounded-stand-in', text=r.reason[:160], message='verifier undecided: ' + r.reason[:300],
+                           rendered='bounded stand-in (%s) found a failing input on the real code:\n%s' % (bound, conc.get('raw', '')))
+                path = write_replay(prop, r.name, rec, dict(concrete=conc, failing_input=conc.get('input'),
+                                                             note='found by the BOUNDED stand-in, not by the verifier; bound: ' + bound))
+                print('unit %s undecided by the verifier (%s); bounded stand-in found a failing input' % (r.name, r.reason[:120]))
+                print('VIOLATION property=%s replay=%s' % (prop, path))
+                return 1
+            print('bounded stand-in for %s: no failing input (%s)' % (r.name, bound))
         print('UNDECIDED property=%s (not an alarm): %s' % (prop, ' ; '.join(reasons)))
         return 2
     print('OK property=%s tier=%s obligations=%d discharged=%d canaries=%d/%d bounded=%d wall=%.1fs' % (
